@@ -115,8 +115,14 @@ func concRun(enc *json.Encoder, seed int64, nmut, nreaders, yieldPct int, st *st
 	// hooks: Pub from inside rootCAS; random pauses at yield points
 	var yrng uint64 = uint64(seed)*2654435761 + 1
 	var ymu sync.Mutex
+	// only the original store's collections publish versions of interest (the
+	// destination of a concurrent CopyTo has collections of the same names)
+	own := map[*gkvlite.Collection]bool{}
+	for _, n := range names {
+		own[store.GetCollection(n)] = true
+	}
 	gkvlite.VerifEventHook = func(ev string, c *gkvlite.Collection, root uintptr, refs int64, chained uintptr) {
-		if ev == "cas" && c != nil {
+		if ev == "cas" && c != nil && own[c] {
 			lg.add(lg.next(), Ev{"e": "Pub", "c": u.NameID(c.Name())})
 		}
 	}
@@ -247,7 +253,7 @@ func concRun(enc *json.Encoder, seed int64, nmut, nreaders, yieldPct int, st *st
 				key := u.Keys[rr.Intn(len(u.Keys))]
 				wv := rr.Intn(2) == 0
 				base := Ev{"e": "RStart", "r": r, "c": u.NameID(n)}
-				kind := []string{"get", "min", "max", "totals", "asc", "desc", "asc", "desc", "snapshot"}[rr.Intn(9)]
+				kind := []string{"get", "min", "max", "totals", "asc", "desc", "asc", "desc", "snapshot", "snapcopy"}[rr.Intn(10)]
 				s := lg.next()
 				lg.add(s, base)
 				end := Ev{"e": "REnd", "r": r, "c": u.NameID(n), "kind": kind, "wv": wv, "err": false, "k": u.KeyID(key, false), "t": 0}
@@ -307,6 +313,21 @@ func concRun(enc *json.Encoder, seed int64, nmut, nreaders, yieldPct int, st *st
 					e = lg.next()
 					end["colls"] = dump(sn)
 					end["res"] = []Ev{}
+					sn.Close()
+				case "snapcopy":
+					// a snapshot compacted into a fresh file while the original keeps
+					// changing: the copy holds, per collection, the version the snapshot pinned
+					sn := store.Snapshot()
+					e = lg.next()
+					end["kind"], end["via"] = "snapshot", "copyto"
+					end["res"] = []Ev{}
+					d, err := sn.CopyTo(memfile.New(100+r), []int{0, 1, 3, 100}[rr.Intn(4)])
+					if err != nil {
+						end["err"], end["colls"] = true, []Ev{}
+					} else {
+						end["colls"] = dump(d)
+						d.Close()
+					}
 					sn.Close()
 				}
 				lg.add(e, end)
